@@ -62,7 +62,11 @@ func c17Record(t *rapid.T) (ChartConfig, bool) {
 			nb := rapid.IntRange(1, 6).Draw(t, "nbuckets")
 			var bs []string
 			for i := 0; i < nb; i++ {
-				bs = append(bs, rapid.StringMatching(`[a-z0-9.*<=-]{1,8}`).Draw(t, "bucket"))
+				b := rapid.StringMatching(`[a-z0-9.*<=-]{1,8}`).Draw(t, "bucket")
+				if rapid.IntRange(0, 30).Draw(t, "dashBucket") == 0 {
+					b = "---" // legal as a bucket name; on a line of its own it would be the record separator
+				}
+				bs = append(bs, b)
 			}
 			c.Counter = name + ":{" + strings.Join(bs, ",") + "}"
 			multi = nb > 1
@@ -148,7 +152,11 @@ func c17Print(t *rapid.T, recs []ChartConfig) (text string, multiline bool) {
 					if j == len(buckets)-1 {
 						sep = ""
 					}
-					s.WriteString(rapid.SampledFrom([]string{"  ", "\t", ""}).Draw(t, "indent") + b + sep + comment() + "\n")
+					line := rapid.SampledFrom([]string{"  ", "\t", ""}).Draw(t, "indent") + b + sep + comment()
+					if line == "---" {
+						line = " ---" // a line consisting of exactly "---" is the record separator, also inside a list
+					}
+					s.WriteString(line + "\n")
 					if rapid.IntRange(0, 4).Draw(t, "blankInList") == 0 {
 						s.WriteString("  # comment inside the list\n")
 					}
